@@ -103,8 +103,11 @@ def run(ck):
             return call(it, s, "generate_hilbert_space", api.intsym("n"))
 
         rets = [p for p in paths_of(prog, th) if p.outcome == "return"]
-        ck.check(len(rets) == 1, "C19.R1", "generate_hilbert_space:returns", ghs.site(), "expected one returning path, found %d" % len(rets))
+        ck.check(len(rets) >= 1, "C19.R1", "generate_hilbert_space:returns", ghs.site(), "no returning path")
         for p in rets:
+            if not isinstance(p.value, VTens):
+                ck.undecided("C19.R1", "generate_hilbert_space:tensor result", ghs.site(), "the result is not a tensor value the analyser can follow: %r" % (p.value,))
+                continue
             t = p.value.term
             pc, pr = polarity(t), row_polarity(t)
             ck.check(True if pc == DESC else (False if pc == ASC else None), "C19.R1", "generate_hilbert_space:site 0 is the most significant bit", ghs.site(),
@@ -114,6 +117,21 @@ def run(ck):
             ck.check(p.value.shape is not None and len(p.value.shape) == 2 and p.value.shape[1] == "n", "C19.R1", "generate_hilbert_space:shape", ghs.site(), "space has shape %s, expected (2^n, n)" % (p.value.shape,))
             sy = t.syms()
             ck.check("n" in sy, "C19.R1", "generate_hilbert_space:uses size", ghs.site(), "the requested size does not determine the space")
+    with ck.guard("C19.R1", "generate_hilbert_space/fresh", ghs.site()):
+        def thf(it):
+            s = make_state(it, "PositiveWaveFunction")
+            n0 = len(it.effects)
+            a = call(it, s, "generate_hilbert_space", api.intsym("n"))
+            b = call(it, s, "generate_hilbert_space", api.intsym("n"))
+            return s, a, b, n0
+
+        for p in [q for q in paths_of(prog, thf, sticky=True) if q.outcome == "return"]:
+            s_, a, b, n0 = p.value
+            ck.check(isinstance(a, VTens) and isinstance(b, VTens) and a.obj is not b.obj and a.obj.origin == "fresh", "C19.R1", "generate_hilbert_space:a new tensor on every call [%s]" % path_tag(p), ghs.site(),
+                     "two calls return the same tensor object: a caller that overwrites the returned space (e.g. sample(..., initial_state=space, overwrite=True)) corrupts every later result")
+            kept = [e for e in p.effects[n0:] if e.kind in ("setattr", "container") and "self" in e.origins]
+            ck.check(not kept, "C19.R1", "generate_hilbert_space:nothing stored on the model [%s]" % path_tag(p), kept[0].site if kept else ghs.site(),
+                     "generate_hilbert_space stores state on the model (%s)" % (kept[0].detail if kept else ""))
     with ck.guard("C19.R1", "subspace_vector", sv.site()):
         def th2(it):
             s = make_state(it, "PositiveWaveFunction")
